@@ -158,7 +158,7 @@ def scenario():
         Msg(190, 60, full='BitReadError', matched=True, info_len=75),   # section 4 length damaged (increased): data unreadable, header intact
         Msg(250, 50, category=11, n_subsets=3, matched=False),     # table definitions
         Msg(300, 40, full=LIB, info=LIB, matched=True),            # damaged header: even the metadata decode fails
-        Msg(345, 35, matched=True),
+        Msg(345, 35, matched=True, declared=31),                   # intact sections, section-0 total understated
     ]
     decoys = [130, 320]
     # stop signatures: the real end of every message, and the characters '7777' inside the bodies of two messages
@@ -382,6 +382,8 @@ def run(repo, check):
     for f in r5.findings:
         f.rule = 'C11.R5'
     check.add(r5)
+    from sa.rules.common import share
+    share(check, repo, c17.rule_r3, 'C11.R6', 'decoder options never rewrite the section layouts later messages of the stream are read with (shared with C17.R3)')
     check.assumptions = ['the scripted decoder stands for Decoder.process: it succeeds exactly at real message starts, reports the decoded span (C04.R4) and '
                          'raises a library error on damaged input (C12); the scanner logic is what is decided here',
                          'the boundaries found in a particular byte string are a runtime fact']
